@@ -348,6 +348,9 @@ type Hooks struct {
 	AfterCommit func(w *world.World, k int)
 	// Battery: run the query battery after every commit (and restart) and record it in the trace.
 	Battery bool
+	// Virtual: block boundaries are the E1 explorer's virtual ones (real EndBlock, transient stores
+	// cleared, BeginBlock on the uncommitted deliver state) instead of Commit + BeginBlock.
+	Virtual bool
 }
 
 func recordDeliver(r abci.ResponseDeliverTx) (string, string) {
@@ -416,6 +419,12 @@ func runBlocks(w *world.World, n int, txsOf func(i int) ([]func() []byte, []stri
 		}
 		ebs := fmt.Sprintf("valupdates=[%s] cp=%s events=%s", vu, cp, digest([]byte(evString(eb.Events))))
 		tr = append(tr, Step{Label: fmt.Sprintf("b%d.endblock", i), Digest: digest(mustMarshal(&eb)), Detail: ebs})
+		if h.Virtual {
+			bb := w.VirtualBeginBlock(dt, absent, ev)
+			tr = append(tr, Step{Label: fmt.Sprintf("b%d.beginblock-next", i), Digest: digest([]byte(evString(bb.Events))), Detail: "events"})
+			out = append(out, blk)
+			continue
+		}
 		between(fmt.Sprintf("b%d.commit", i), nil)
 		cm := w.App.Commit()
 		tr = append(tr, Step{Label: fmt.Sprintf("b%d.commit", i), Digest: hex.EncodeToString(cm.Data), Detail: "apphash"})
@@ -526,6 +535,7 @@ type Variant struct {
 	ClockSec  int64
 	Noise     bool
 	NoiseOld  bool   // the EVM-executing queries ask old heights before the latest one
+	Virtual   bool   // virtual block boundaries (conformance check of the E1 engine's block trick)
 	Second    bool   // construct another application object first
 	RestartAt int    // restart after the commit of this block index (-1: never)
 	Restart   string // "same-db" | "copied-db" | "twice"
@@ -543,7 +553,7 @@ func (f *Fix) Replay(h History, v Variant) (Trace, *world.World) {
 		_ = world.NewApp(dbm.NewMemDB(), world.DefaultChainID) // construction order / package globals
 	}
 	w := f.NewWorld()
-	hooks := Hooks{Battery: f.Battery}
+	hooks := Hooks{Battery: f.Battery, Virtual: v.Virtual}
 	if v.Noise {
 		hooks.Between = func(w *world.World, label string, next []byte) {
 			if next != nil {
